@@ -178,6 +178,24 @@ DROP_ATTR_RE = re.compile(
     r"^\s*#\[(account|zero_copy|repr|error_code|msg|inline|allow|cfg_attr|constant|must_use|event|doc|deprecated|access_control|instruction|cold|default|non_exhaustive)\b")
 
 
+def split_top(text):
+    """split at commas outside any bracket"""
+    parts, d, cur = [], 0, ""
+    for ch in text:
+        if ch in "([{":
+            d += 1
+        elif ch in ")]}":
+            d -= 1
+        if ch == "," and d == 0:
+            parts.append(cur)
+            cur = ""
+        else:
+            cur += ch
+    if cur.strip():
+        parts.append(cur)
+    return parts
+
+
 def _join_multiline_attrs(lines):
     """an attribute whose brackets close on a later line (`#[instruction(\n a: u64,\n)]`) becomes one logical line"""
     out, i = [], 0
@@ -385,6 +403,10 @@ class Gen:
                     self.log.append(f"PUBKEY {src.rel}::{nm} = base58 {m.group(1)} decoded to 32 bytes")
                     self.functions.append(dict(kind="item", name=nm, file=src.rel, lines=[line_of(src.text, m.start())] * 2,
                                                sha=hashlib.sha256(m.group(0).encode()).hexdigest()[:16], tags=list(self.tags)))
+            elif cmd == "constraints":
+                # //@ constraints <file> <Struct> [method:<name> ...]
+                src = Source.get(os.path.join(self.root, toks[0]))
+                self._emit_constraints(src, toks[1], [t.split(":", 1)[1] for t in toks[2:] if t.startswith("method:")])
             elif cmd == "item":
                 src = Source.get(os.path.join(self.root, toks[0]))
                 self._emit_item(src, rx(toks[1]), name)
@@ -441,6 +463,142 @@ class Gen:
         self.functions.append(dict(kind="item", name=header_re, file=src.rel,
                                    lines=[line_of(src.text, b), line_of(src.text, e - 1)],
                                    sha=hashlib.sha256(text.encode()).hexdigest()[:16], tags=list(self.tags)))
+
+    def _emit_constraints(self, src, sname, methods):
+        """K-rules: the #[account(..)] attributes of a #[derive(Accounts)] struct become one spec predicate constraints_<Struct>(a, <instruction args>).
+        Translated (K1..K3): has_one = x  ->  a.F.data.x == a.x.skey();  address = E / constraint = E where E is built from  F.key() / F.key,
+        F.field (account data), F.method(..) for whitelisted methods (-> a.F.data.method_spec(..)), indexing `[i as usize]`, instruction arguments and
+        the operators == != ! && ||.  Everything else (mut, init, payer, space, seeds, bump, close, token::*, mint::*, associated_token::*, owner,
+        expressions naming constants or to_account_info()) is NOT translated and is listed in the log and in the assumption entry."""
+        r = src.find_block(r"^\s*pub struct " + re.escape(sname) + r"\b")
+        if r is None or r[1] is None:
+            raise Undecided(f"lost anchor: accounts struct {sname} not found in {src.rel}")
+        b, ob, e = r
+        dv = src.text.rfind("#[derive(Accounts)]", 0, ob)
+        if dv < 0 or src.mask[dv:b].count("{"):
+            raise Undecided(f"lost anchor: #[derive(Accounts)] of {sname} not found in {src.rel}")
+        b = min(b, dv)
+        head = src.text[b:ob]  # from the derive on: a multi-line #[instruction(..)] is not part of the item start the line scanner finds
+        body, bmask = src.text[ob + 1:e - 1], src.mask[ob + 1:e - 1]
+        # instruction arguments
+        args = []
+        mi = re.search(r"#\[instruction\(", head)
+        if mi:
+            j, d = mi.end(), 1
+            while d:
+                d += head[j] in "([" and 1 or 0
+                d -= head[j] in ")]" and 1 or 0
+                j += 1
+            for part in split_top(head[mi.end():j - 1]):
+                part = " ".join(part.split())
+                if part:
+                    nm, ty = [x.strip() for x in part.split(":", 1)]
+                    args.append((nm, ty))
+        # fields and their account attributes
+        fields, pend, i = [], [], 0
+        while i < len(body):
+            if bmask.startswith("#[", i):
+                j, d = i + 2, 1
+                while d:
+                    d += bmask[j] in "([" and 1 or 0
+                    d -= bmask[j] in ")]" and 1 or 0
+                    j += 1
+                at = body[i:j]
+                am = re.match(r"#\[account\((.*)\)\]$", at, re.S)
+                if am:
+                    # comments and string contents blanked (mask): translatable clauses contain neither
+                    pend.append((bmask[i + len("#[account("):j - 2], None))
+                i = j
+                continue
+            fm = re.match(r"pub\s+(\w+)\s*:", bmask[i:])
+            if fm:
+                j, d = i + fm.end(), 0
+                while j < len(bmask) and not (bmask[j] == "," and d == 0):
+                    d += bmask[j] in "(<[" and 1 or 0
+                    d -= bmask[j] in ")>]" and 1 or 0
+                    j += 1
+                fields.append((fm.group(1), body[i + fm.end():j].strip(), pend))
+                pend = []
+                i = j + 1
+                continue
+            i += 1
+        fnames = {f for f, _, _ in fields}
+        anames = {a for a, _ in args}
+        clauses, skipped, used_args = [], [], set()
+
+        def tr(expr):
+            x = " ".join(expr.split())
+            # K4: `*F.to_account_info().owner` (the program owning account F) -> a.F.sowner()
+            x = re.sub(r"\*(\w+)\.to_account_info\(\)\.owner\b", lambda m: f"a.{m.group(1)}.sowner()" if m.group(1) in fnames else m.group(0), x)
+            if "to_account_info" in x or "::" in x:
+                return None
+            for w in anames:
+                if re.search(r"(?<![\w.])" + re.escape(w) + r"\b", x):
+                    used_args.add(w)
+            x = re.sub(r"\b(\w+)\.key\(\)", lambda m: f"a.{m.group(1)}.skey()" if m.group(1) in fnames else m.group(0), x)
+            x = re.sub(r"(?<![\w.])(\w+)\.key\b(?!\()", lambda m: f"a.{m.group(1)}.skey()" if m.group(1) in fnames else m.group(0), x)
+            def meth(m):
+                if m.group(1) in fnames and m.group(2) in methods:
+                    return f"a.{m.group(1)}.data.{m.group(2)}_spec({m.group(3)})"
+                return m.group(0)
+            x = re.sub(r"(?<![\w.])(\w+)\.(\w+)\(([^()]*)\)", meth, x)
+            x = re.sub(r"(?<![\w.])(\w+)\.(?!skey\(\)|data\.)(\w+)\b(?!\()", lambda m: f"a.{m.group(1)}.data.{m.group(2)}" if m.group(1) in fnames else m.group(0), x)
+            x = re.sub(r"\[(\w+) as usize\]", r"[\1 as int]", x)
+            # anything left that is a call other than skey() / *_spec(..), or a bare identifier that is neither a parameter nor a literal: untranslatable
+            chk = re.sub(r"a\.\w+\.s(key|owner)\(\)", "K", x)
+            chk = re.sub(r"a\.\w+\.data\.\w+_spec\(", "K(", chk)
+            chk = re.sub(r"a\.\w+\.data(\.\w+|\[\w+ as int\])+", "K", chk)
+            for idm in re.finditer(r"(?<![\w.])([A-Za-z_]\w*)\b", chk):
+                w = idm.group(1)
+                if w in ("K", "as", "int", "true", "false"):
+                    continue
+                if w in anames:
+                    used_args.add(w)
+                    continue
+                return None
+            if re.search(r"[*&](?![&])", chk.replace("&&", "")):
+                return None
+            return x
+
+        for (fname, fty, attrs) in fields:
+            for (atext, amask) in attrs:
+                for cl in split_top(atext):
+                    c = " ".join(cl.split())
+                    c = re.sub(r"^//[^\n]*", "", c).strip()
+                    if not c:
+                        continue
+                    c0 = c
+                    c = re.split(r"\s@\s", c, 1)[0].strip()
+                    k = re.split(r"\s*=\s*", c, 1)
+                    key, val = k[0], (k[1] if len(k) > 1 else None)
+                    out = None
+                    if key == "has_one" and val and re.fullmatch(r"\w+", val) and val in fnames:
+                        out = f"a.{fname}.data.{val} == a.{val}.skey()"
+                    elif key == "address" and val:
+                        t = tr(val)
+                        out = f"a.{fname}.skey() == {t}" if t else None
+                    elif key == "constraint" and val:
+                        out = tr(val)
+                    if out:
+                        clauses.append((fname, c0, out))
+                    elif key not in ("mut", "signer"):
+                        skipped.append(f"{fname}: {c0}")
+        used = [(a, t) for (a, t) in args if a in used_args]
+        params = "".join(f", {a}: {t}" for a, t in used)
+        o = self.out
+        ref = ("repo", src.rel, line_of(src.text, b))
+        o.emit(f"/// generated (K-rules) from the #[account(..)] attributes of {sname} in {src.rel}: the clauses derive(Accounts) enforces before the handler body runs", None, list(self.tags))
+        o.emit(f"pub open spec fn constraints_{sname}(a: &{sname}{params}) -> bool {{", ref, list(self.tags))
+        for (fname, c0, out) in clauses:
+            o.emit(f"    &&& ({out}) // {fname}: {c0}", ref, list(self.tags))
+        o.emit("    &&& true", None, list(self.tags))
+        o.emit("}", None, list(self.tags))
+        self.log.append(f"K constraints_{sname}: {len(clauses)} clause(s) translated; not translated: " + ("; ".join(skipped) if skipped else "none"))
+        self.assumptions.append(f"Anchor derive(Accounts) enforces every #[account(..)] clause of {sname} before the handler runs; the translated clauses are the precondition constraints_{sname} "
+                                f"({len(clauses)} clause(s)); clauses outside the translated subset, never used as an assumption: " + ("; ".join(skipped) if skipped else "none"))
+        txt = src.text[b:e]
+        self.functions.append(dict(kind="item", name=f"constraints_{sname}", file=src.rel, lines=[line_of(src.text, b), line_of(src.text, e - 1)],
+                                   sha=hashlib.sha256(txt.encode()).hexdigest()[:16], tags=list(self.tags)))
 
     def _emit_fn(self, toks, block, rel_tpl, tpl_line, stub_all):
         rel = os.path.join(self.root, toks[0])
